@@ -29,7 +29,10 @@ VARIABLES regs, hist,
                       \* timeout and is the first thing the client reads in this call
 svars == <<regs, hist, transport, late>>
 
-Content(a) == (a * 40503 + 12345) % 65536
+Content(a) == ((a % 1000) * 40503 + 12345) % 65536
+\* registers at the very end of the address space (and those holding the last coils) are mapped as well: a
+\* range that ends exactly at the last address is a valid request
+TopAddrs == {4094, 4095, 65533, 65534, 65535}
 NoVal == [a \in {} |-> "x"]
 
 Methods == {"ReadCoils", "ReadDiscreteInputs", "ReadHoldingRegs", "ReadInputRegs",
@@ -77,7 +80,7 @@ Call(m, a, n, t) ==
        /\ late' = (t = "resp-late" /\ RespFits(r))
        /\ UNCHANGED transport
 
-Init == /\ regs = [a \in 0..MaxAddr |-> Content(a)]
+Init == /\ regs = [a \in (0..MaxAddr) \cup TopAddrs |-> Content(a)]
         /\ hist = <<>> /\ late = FALSE
         /\ transport \in {"rtu", "tcp"}
 
